@@ -12,22 +12,27 @@ CLAIM = {
                   "choice and the neighbour order as universally quantified parameters) + differential correspondence "
                   "against the real Ledger::eval on generated price graphs + an independent all-simple-chains oracle"),
     "text": ("Proof: insert_price / insert_impl / build / as-of lookup / compute_price_table / convert_single are modelled in "
-             "Lean (Okane.Price); the heap's pop order and the hash maps' iteration order are parameters and every theorem "
-             "is stated for all of them. Proved: identity (C09_identity), as-of selection reads only records dated <= D and "
-             "picks the most recent (C09_asof, C09_asof_filter), both directions with reciprocal rates (C09_reciprocal), "
-             "price-db records replace ledger records of the same pair when ledger events are inserted first, which "
-             "process does (C09_priority), every table entry is realised by a chain of as-of records with exactly that "
-             "distance and rate product (C09_sound), and at termination every tabled distance is <= the distance of every "
-             "chain (walk) to that commodity, a commodity is absent iff no chain exists (C09_optimal, for every pop order "
-             "and neighbour order), and conversion fails exactly then (C09_fail_iff). Termination within a fuel bound "
-             "is stated in full (C09_terminates_statement) and is PARTIAL: see the note."),
-    "note": ("partial: C09_terminates is proved only as far as stated in Props/C09.lean (see C09_terminates_* there); the "
-             "correspondence measures the number of loop iterations on every generated graph instead. rust_decimal is "
-             "modelled as exact rationals (generated rates are products of powers of 2 and 5 so that every product and "
-             "reciprocal is exact; an extra stream with a factor 3 is compared with a 1e-18 relative tolerance and tagged). "
-             "Price-db lines reach the model as the generator's structured records (core's price parser is not public); the "
-             "real code reads the text file. Same-day records: the code takes the largest rate of the day per direction; the "
-             "oracle accepts any record of the most recent day, the model pins the exact choice."),
+             "Lean (Okane.Price); the heap's pop order and the neighbour visiting order are parameters and every theorem "
+             "is stated for all of them. Proved: identity (C09_identity); as-of selection returns a stored record dated <= D, "
+             "none more recent exists, and records dated > D are never read (C09_asof, C09_asof_filter, C09_build_sorted, "
+             "C09_step_is_asof); both directions with reciprocal rates (C09_reciprocal); price-db records replace ledger "
+             "records of the same pair given that ledger events are inserted first, which process does (C09_priority, "
+             "C09_priority_built); every table entry is realised by a chain of as-of records with exactly that distance and "
+             "rate product (C09_sound); at termination the tabled distance is <= the distance of EVERY chain to that "
+             "commodity and a commodity is absent iff no chain exists, for every pop order and neighbour order "
+             "(C09_optimal, C09_best, C09_order_independent_distance), conversion fails exactly then (C09_fail_iff); the "
+             "loop terminates within an explicit fuel bound computed from the repository and the date, for every pop "
+             "order (C09_terminates, C09_convert_total, C09_no_crash); the cache is a transparent memo table "
+             "(C09_cache_transparent). C09_tie_witness shows that the rate (not the distance) may depend on the visiting "
+             "order when equally good chains disagree."),
+    "note": ("rust_decimal is modelled as exact rationals (generated rates are products of powers of 2 and 5 so that every "
+             "product and reciprocal is exact; an extra stream with factors 3/7 is compared with a 1e-18 relative tolerance "
+             "and tagged). Price-db lines reach the model as the generator's structured records (core's price parser is not "
+             "public); the real code reads the text file. Chains in the theorems may revisit commodities (a stronger lower "
+             "bound); the python oracle enumerates simple chains. Same-day records: the code takes the largest rate of "
+             "the day per direction; the oracle accepts any record of the most recent day, the model pins the exact choice. "
+             "The driver runs the model with fuel = the proved bound, under 10 pop/neighbour-order combinations, and "
+             "requires the implementation's answer to be one of the model's."),
     "design_ref": "DESIGN.md section 6 C09 and Appendix D",
 }
 
@@ -49,7 +54,9 @@ THEOREMS = [
     "Okane.Price.C09_two_hop",
     "Okane.Price.C09_order_independent_distance",
     "Okane.Price.C09_cache_transparent",
-    "Okane.Price.C09_terminates_partial",
+    "Okane.Price.C09_terminates",
+    "Okane.Price.C09_no_crash",
+    "Okane.Price.C09_convert_total",
     "Okane.Price.C09_tie_witness",
 ]
 
